@@ -31,7 +31,7 @@ ASSUMPTIONS = [
 PROBES = ["passes_150s", "passes_days", "reboot", "clock_step", "slow_agent", "recovered_after_discontinuity",
           "failed_right_after_discontinuity", "disco_foreign_msgid", "disco_no_bindings", "disco_wrong_pdu", "level_auth",
           "level_priv", "configured_context_engine", "drift_within_window", "drift_beyond_window", "slow_agent_clock",
-          "fast_agent_clock", "discovery_without_timing"]
+          "fast_agent_clock", "discovery_without_timing", "old_response_replayed"]
 shrink_lists = [("steps",)]
 BASE = (1, 3, 6, 1, 2, 1, 7)
 DELTAS = [1, 30, 149, 150, 151, 600, 3600, 86400, 30 * 86400]
@@ -60,8 +60,10 @@ def plan_for(tier: str, seed: int, i: int) -> dict:
             steps.append(["pass", rng.choice(DELTAS)])
         elif r < 0.88:
             steps.append(["reboot"])
-        elif r < 0.94:
+        elif r < 0.92:
             steps.append(["step", rng.choice([151, 1000, 86400])])
+        elif r < 0.95:
+            steps.append(["replay"])      # an on-path attacker answers the next request with an OLD authentic response
         else:
             steps.append(["slow", rng.choice([1, 2, 3])])
     steps.append(["req", "get"])
@@ -129,6 +131,26 @@ def execute(plan: dict) -> dict:
         return f
     agent.hook_v3 = hook_v3
     client = w.client(proto, timeout=5, retries=1, engine_id=plan["engine_cfg"])
+    captured: List[bytes] = []
+    replay_armed = [False]
+    replayed = [False]
+
+    def rewriter(direction: str, idx: int, data: bytes) -> Optional[bytes]:
+        if direction != "a2c":
+            return None
+        try:
+            m = S.decode_message(data)
+        except Exception:  # noqa: BLE001
+            return None
+        is_data = m["version"] == 3 and (m["encrypted"] is not None or (m["scoped"] and m["scoped"]["pdu"]["tag"] == S.PDU_RESPONSE))
+        if replay_armed[0] and captured and is_data:
+            replay_armed[0] = False
+            replayed[0] = True
+            return captured[0]
+        if is_data and not captured:
+            captured.append(data)
+        return None
+    w.net.rewriter = rewriter
     o1, o2, o3 = sorted(mib)
     violation = None
     outcomes: List[str] = []
@@ -175,6 +197,10 @@ def execute(plan: dict) -> dict:
             classes.append("step%d" % step[1])
             probes["clock_step"] = 1
             continue
+        if kind == "replay":
+            replay_armed[0] = bool(captured)
+            classes.append("replay")
+            continue
         if kind == "slow":
             slow["s"] = step[1]
             classes.append("slow%d" % step[1])
@@ -209,6 +235,13 @@ def execute(plan: dict) -> dict:
         outcomes.append(excname or "ok")
         classes.append("req:%s:%s" % (opname, excname or "ok"))
         was_pending = pending
+        got_replay, replayed[0] = replayed[0], False
+        replay_armed[0] = False
+        if got_replay:
+            probes["old_response_replayed"] = 1
+            # no verdict on the attacked request itself (request ids are clock readings: the old response may even
+            # carry the same id); what follows must not suffer from it
+            continue
         # --- discovery clauses --------------------------------------------------------------
         if before == 0:
             first = new[0] if new else None
